@@ -9,3 +9,7 @@ func VerifRegexToDFA(regex string) (*auto.DFA, error) { return regexToDFA(regex)
 
 // VerifStringToDFA exposes the token pipeline's literal-to-DFA conversion to the verification hook.
 func VerifStringToDFA(value string) *auto.DFA { return stringToDFA(value) }
+
+// VerifHashStrings exposes the hash function of the memo table of synthesised names to the verification hook.
+// The argument is sorted in place by the call, as for any caller.
+func VerifHashStrings(s Strings) uint64 { return hashStrings(s) }
